@@ -75,7 +75,10 @@ def no_cycle(path, imports, files_imports):
     return [] if cyclic(trial) else imports
 
 
-def source(path, gen, imports):
+def source(path, gen, imports, broken=False):
+    if broken:
+        # a file that does not parse: it cannot be loaded, and neither can anything that imports it
+        return f"GEN = {gen}\nthis is not python(\n"
     L = [f"GEN = {gen}", "mval = GEN", "counter = 0"]
     for i in imports:
         L.append(IMPORTS[path][i][0])
@@ -133,6 +136,8 @@ class Model:
         """Execute the file of ctx (it exists): imports pull in modules that are not loaded yet."""
         path = CTX2PATH[ctx]
         f = self.files[path]
+        if f.get("broken"):
+            return False  # syntax error: nothing of the file runs
         imps = set()
         # the context object exists only after its body ran; imports happen during the body
         for i in f["imports"]:
@@ -232,8 +237,17 @@ def gen(R):
     ops = []
     exists = set(initial)  # create only takes effect for a missing file, modify only for an existing one
     for _ in range(R.int(2, 10)):
-        k = R.weighted([(4, "modify"), (2, "touch"), (2, "create"), (2, "delete"), (1, "comment"), (1, "uncomment"), (3, "appconf"), (6, "reload"), (2, "bump"), (1, "reload_overlap")])
+        k = R.weighted([(4, "modify"), (2, "touch"), (2, "create"), (2, "delete"), (1, "comment"), (1, "uncomment"), (3, "appconf"), (6, "reload"), (2, "bump"), (1, "reload_overlap"), (1, "break_named")])
         p = R.choice(paths)
+        if k == "break_named":
+            # a loaded script is edited into a syntax error and reloaded by its own name: the old context must go
+            p = R.choice(["a.py", "b.py", "scripts/s1.py", "scripts/sub/s2.py"])
+            g += 1
+            ops.append({"op": "modify", "path": p, "gen": g, "imports": [], "broken": True})
+            ops.append({"op": "reload", "which": FILES[p][0]})
+            if p in exists:
+                cur_imports[p] = []
+            continue
         if k == "reload_overlap":
             # a reload is requested and, while it is still running, a file is edited and a second reload is requested
             g += 1
@@ -247,7 +261,7 @@ def gen(R):
             if (k == "create") != (p in exists):
                 cur_imports[p] = imps
                 exists.add(p)
-            ops.append({"op": k, "path": p, "gen": g, "imports": imps})
+            ops.append({"op": k, "path": p, "gen": g, "imports": imps, "broken": R.bool(1, 6)})
         elif k in ("touch", "delete", "comment", "uncomment"):
             if k == "delete":
                 exists.discard(p)
@@ -332,10 +346,10 @@ async def execute(case, variant=False):
                 commented = m.files[p]["commented"] if p in m.files else False
                 os.makedirs(os.path.dirname(fpath(p)), exist_ok=True)
                 with open(fpath(p, commented), "w") as fh:
-                    fh.write(source(p, op["gen"], op["imports"]))
+                    fh.write(source(p, op["gen"], op["imports"], op.get("broken", False)))
                 t = tick()
                 os.utime(fpath(p, commented), (t, t))
-                m.files[p] = {"gen": op["gen"], "mtime": t, "imports": op["imports"], "commented": commented}
+                m.files[p] = {"gen": op["gen"], "mtime": t, "imports": op["imports"], "commented": commented, "broken": op.get("broken", False)}
             elif k == "touch":
                 p = op["path"]
                 if p in m.files:
@@ -448,7 +462,7 @@ class C10(ModelCheck):
         "file trees over pyscript/a.py, b.py, scripts/s1.py, scripts/sub/s2.py, apps/app12.py (single-file app whose name has the app package's name as a prefix), modules m12 (prefix m1) and m3 (leaf below a diamond), apps/app1/__init__.py + helper.py, modules/m1.py, "
         "modules/pkg/__init__.py + sub.py (each present or not) with generated import edges (import m, from m import x, "
         "relative import inside packages; modules importing modules) and optional app configuration, followed by 2-10 "
-        "steps of modify / touch (mtime only) / create / delete / rename with '#' / add-remove-change app config / fire a "
+        "steps of modify (one in six edits leaves a file that does not parse) / touch (mtime only) / create / delete / rename with '#' / add-remove-change app config / fire a "
         "'bump' event that changes a counter in every loaded context / reload(None | name | '*') / an edit made while a reload is still running, followed by a second reload request (only the state after both is compared), ending with two plain "
         "reloads. Every file's preamble records (context, generation) when executed. Oracle: a model of the documented "
         "reload rules gives, after every reload, (a) which contexts were executed, (b) the set of loaded contexts with "
